@@ -70,6 +70,46 @@ def forbidden_pairs(ctx, fns):
     for fn, rz, ts, fs, other in raw:
         if len(ts) == 2 and not other:
             pairs[frozenset(ts)] = (fn, rz, fs)
+    # table form: selected = [.. for .., bit in ((.., self.A), (.., self.B), ..) if flags & bit]; if len(selected) > 1: raise
+    # rejects every pair of the table's constants
+    for fn in fns:
+        cfg = ctx.cfg(fn)
+        ldefs = {}
+        for n_ in walk_no_nested(fn.node):
+            if isinstance(n_, ast.Assign) and len(n_.targets) == 1 and isinstance(n_.targets[0], ast.Name):
+                ldefs.setdefault(n_.targets[0].id, []).append(n_.value)
+        for name_, vals in ldefs.items():
+            if len(vals) != 1 or not isinstance(vals[0], (ast.ListComp, ast.GeneratorExp)) or len(vals[0].generators) != 1:
+                continue
+            g = vals[0].generators[0]
+            src = g.iter
+            if isinstance(src, ast.Name) and len(ldefs.get(src.id, [])) == 1:
+                src = ldefs[src.id][0]
+            if not isinstance(src, (ast.Tuple, ast.List)) or len(g.ifs) != 1:
+                continue
+            tvars = [x.id for x in (g.target.elts if isinstance(g.target, ast.Tuple) else [g.target]) if isinstance(x, ast.Name)]
+            test = g.ifs[0]
+            if not (isinstance(test, ast.BinOp) and isinstance(test.op, ast.BitAnd) and any(isinstance(x, ast.Name) and x.id in tvars for x in (test.left, test.right))):
+                continue
+            bitvar = next(x.id for x in (test.left, test.right) if isinstance(x, ast.Name) and x.id in tvars)
+            pos = tvars.index(bitvar) if isinstance(g.target, ast.Tuple) else None
+            consts = []
+            for el in src.elts:
+                item = el.elts[pos] if (pos is not None and isinstance(el, ast.Tuple) and len(el.elts) > pos) else el
+                if isinstance(item, ast.Attribute) and isinstance(item.value, ast.Name) and item.value.id in ("self", "cls") and item.attr.isupper():
+                    consts.append(item.attr)
+            if len(consts) < 2:
+                continue
+            # a raise under `len(<name_>) > 1` (or >= 2)
+            for rz in [n for n in cfg.nodes if n.kind == "raise"]:
+                for e in cfg.nodes:
+                    if e.kind == "T" and cfg.dominates(e.id, rz.id) and isinstance(e.ast, ast.Compare) and isinstance(e.ast.left, ast.Call) and isinstance(e.ast.left.func, ast.Name) and e.ast.left.func.id == "len" \
+                            and e.ast.left.args and isinstance(e.ast.left.args[0], ast.Name) and e.ast.left.args[0].id == name_ \
+                            and ((isinstance(e.ast.ops[0], ast.Gt) and isinstance(e.ast.comparators[0], ast.Constant) and e.ast.comparators[0].value == 1)
+                                 or (isinstance(e.ast.ops[0], ast.GtE) and isinstance(e.ast.comparators[0], ast.Constant) and e.ast.comparators[0].value == 2)):
+                        for i_ in range(len(consts)):
+                            for j_ in range(i_ + 1, len(consts)):
+                                pairs[frozenset((consts[i_], consts[j_]))] = (fn, rz, [])
     # chain justification
     ok = {}
     for pr, (fn, rz, fs) in pairs.items():
@@ -238,6 +278,10 @@ def run(ctx):
                         for n in cfg.nodes:
                             if n.kind == "stmt" and isinstance(n.ast, ast.AugAssign) and isinstance(n.ast.op, ast.BitOr) and cfg.dominates(e.id, n.id):
                                 adds |= {x.attr for x in walk_no_nested(n.ast.value) if isinstance(x, ast.Attribute) and x.attr.isupper()}
+                                # the added bit may be held in a local first
+                                for x in walk_no_nested(n.ast.value):
+                                    if isinstance(x, ast.Name) and x.id in ldefs:
+                                        adds |= {y.attr for y in walk_no_nested(ldefs[x.id]) if isinstance(y, ast.Attribute) and y.attr.isupper()}
                             # `return flags | X` / `flags = flags | X`
                             if n.kind in ("stmt", "return") and cfg.dominates(e.id, n.id):
                                 v = getattr(n.ast, "value", None)
